@@ -207,6 +207,17 @@ def k_reuse(ctx, seed, start="ctor"):
             h.pack()
         inplace = r.random() < 0.5
         g = rnd_fields(f["idw"], f["seqw"]) if inplace else rnd_fields()
+        if not inplace and r.random() < 0.3:
+            # numeric twins: same ids / sequence number as before, carried in other widths
+            idws = [w for w in C.WIDTHS if max(f["src"], f["dst"]) < 1 << 8 * w and w != f["idw"]]
+            seqws = [w for w in C.WIDTHS if f["seq"] < 1 << 8 * w and w != f["seqw"]]
+            if idws and r.random() < 0.8:
+                g.update(idw=r.choice(idws), src=f["src"], dst=f["dst"])
+            if seqws and r.random() < 0.8:
+                g.update(seqw=r.choice(seqws), seq=f["seq"])
+            if g["src"] >= 1 << 8 * g["idw"] or g["dst"] >= 1 << 8 * g["idw"] or g["seq"] >= 1 << 8 * g["seqw"]:
+                g = rnd_fields()
+            ctx.table("reuse_setters", "numeric_twin_round")
         ops = [("pdu_type", lambda: setattr(h, "pdu_type", d.PduType(g["pdu_type"]))),
                ("direction", lambda: setattr(h, "direction", d.Direction(g["direction"]))),
                ("transmission_mode", lambda: setattr(h, "transmission_mode", d.TransmissionMode(g["mode"]))),
